@@ -52,6 +52,10 @@ fn main() {
         "C09" => {
             let n = a.n.unwrap_or(if thorough { 300_000 } else { 20_000 });
             vh::props::c09::run(&mut rep, n, replay_seed);
+            if replay_seed.is_none() && !cfg!(miri) && !a.rest.iter().any(|x| x == "--no-live") {
+                vh::props::c10::run_c09_live(&mut rep, thorough);
+                rep.require("live_images_compared", 5);
+            }
         }
         "C13" => {
             let n = a.n.unwrap_or(if thorough { 200_000 } else { 20_000 });
@@ -70,6 +74,10 @@ fn main() {
         "C05" => vh::props::c05::run(&mut rep, thorough),
         "C07" => vh::props::c07::run(&mut rep, thorough),
         "C20" => vh::props::c20::run(&mut rep, thorough),
+        "C19" => vh::props::c19::run(&mut rep, thorough),
+        "C11" => vh::props::c11::run(&mut rep, thorough),
+        "dbgctx" => { dbg_ctx(); return; }
+        "C10" => vh::props::c10::run(&mut rep, thorough),
         "smoke" => {
             smoke();
             return;
@@ -109,5 +117,31 @@ fn smoke() {
             println!("modules {:?}", im.modules.as_ref().unwrap().iter().map(|m| (m.name.clone(), m.base, m.size)).collect::<Vec<_>>());
         }
         other => println!("{other:?}"),
+    }
+}
+
+#[allow(dead_code)]
+fn dbg_ctx() {
+    use vh::tspec::*;
+    let mut rng = vh::rng::Rng::new(7);
+    let mut b = Builder::new();
+    b.sentinel(&mut rng, Mode::Pause, &StackShape::default(), None, None);
+    let t = vh::target::Target::spawn(b.spec.clone(), &b.opts).expect("spawn");
+    let mut prev: Option<vh::image::Context> = None;
+    for k in 0..4 {
+        let mut o = vh::dump::DumpOpts::new(t.pid, t.pid);
+        if k == 2 { o.failspots.push("SuspendThreads".into()); }
+        let (out, _) = vh::dump::dump(&o);
+        if let vh::dump::Outcome::Ok(img) = out {
+            let im = vh::image::decode(&img);
+            let th = im.threads.as_ref().unwrap().iter().find(|x| x.tid as i32 == t.manifest.tids[0]).unwrap().clone();
+            let c = th.ctx.unwrap();
+            if let Some(p) = &prev {
+                let diffs: Vec<usize> = (0..1232).filter(|&i| p.raw[i] != c.raw[i]).collect();
+                println!("dump {k}: differing byte offsets vs previous: {:?}", diffs);
+            }
+            println!("dump {k}: rax {:#x} rcx {:#x} r11 {:#x} rip {:#x} eflags {:#x}", c.rax(), c.rcx(), c.r(11), c.rip, c.eflags);
+            prev = Some(c);
+        }
     }
 }
